@@ -21,6 +21,7 @@ RULE = (
     "ids, replace on/off, id dtype int64/int32/uint32. Oracle: the model tables. Non-trivial = a partial bin "
     "table whose first index is > 0 with unsorted pixels, or a negative bound combined with a column subset, or "
     "integer chromosome encoding. Distinct by sha1 of the canonical case."
+    " Also: explicit step 1; negative bounds beyond the start of the table; an integer bin column whose name contains 'chrom'; annotate() with replace left to its default."
 )
 ASSUMPTIONS = [
     "a partial bin table passed to annotate is a contiguous slice of the stored table indexed by bin id and covering the referenced ids",
